@@ -34,34 +34,35 @@ def read_output(text, lang):
     head, blocks = split_blocks(text, lang)
     out = {}
     if lang == "cpp":
-        ev = re.search(r"// Event type: (\S+) ->\s+(.*)", head)
-        consts = re.findall(r"constexpr fptype (\w+)\s*\{ ([^ ]+)\s*\};", head)
-        res = re.findall(r"^\s*Variable (\w+)\s*\{ (\"[^\"]+\")\s*, ([^ ]+)\s*\};", head, flags=re.M)
-        pars = re.findall(r"^    Variable (\w+) \{(\"[^\"]+\"), ([^ ,}]+)(?:, ([^ }]+))? \};$", head, flags=re.M)
-        arrays = re.findall(r"std::vector<Variable>\s+(\w+)\s*\{\{\n(.*?)\n\s*\}\};", head, flags=re.S)
-        masses = re.search(r"DK3P_DI\.particle_masses = \{(.*?)\};", head)
+        ev = re.search(r"//\s*Event type:\s*(\S+)\s*->\s+(.*)", head)
+        consts = re.findall(r"constexpr\s+fptype\s+(\w+)\s*\{\s*([^\s}]+)\s*\}\s*;", head)
+        variables = re.findall(r"^\s*Variable\s+(\w+)\s*\{\s*(\"[^\"]*\")\s*,\s*([^\s,}]+)\s*(?:,\s*([^\s,}]+)\s*)?\}\s*;", head, flags=re.M)
+        arrays = re.findall(r"std::vector<Variable>\s+(\w+)\s*\{\{\s*(.*?)\s*\}\}\s*;", head, flags=re.S)
+        masses = re.search(r"DK3P_DI\.particle_masses\s*=\s*\{(.*?)\}\s*;", head)
         declared = {}
-        for pat in (r"constexpr fptype (\w+)\s*\{", r"^\s*Variable (\w+)\s*\{", r"std::vector<Variable>\s+(\w+)\s*\{\{"):
+        for pat in (r"constexpr\s+fptype\s+(\w+)\s*\{", r"^\s*Variable\s+(\w+)\s*\{", r"std::vector<Variable>\s+(\w+)\s*\{\{"):
             for k, v in _positions(text, pat).items():
                 declared.setdefault(k, v)
     else:
-        ev = re.search(r"#Event type: (\S+) ->\s+(.*)", head)
-        consts = re.findall(r"^([A-Z][A-Z_0-9]*)\s+= ([0-9.e+-]+)\s*$", head, flags=re.M)
-        res = re.findall(r"^(\w+)\s*= Variable\((\"[^\"]+\")\s*, ([^ ,)]+)\s*\)$", head, flags=re.M)
-        pars = re.findall(r"^(\w+) = Variable\((\"[^\"]+\"), ([^ ,)]+)(?:, ([^ )]+) )?\)$", head, flags=re.M)
-        arrays = re.findall(r"^(\w+) =\s+\[\n(.*?)\]", head, flags=re.S | re.M)
-        masses = re.search(r"DK3P_DI\.particle_masses = \((.*?)\)", head)
+        ev = re.search(r"#\s*Event type:\s*(\S+)\s*->\s+(.*)", head)
+        consts = re.findall(r"^([A-Z][A-Z_0-9]*)\s*=\s*([0-9.eE+-]+)\s*$", head, flags=re.M)
+        variables = re.findall(r"^(\w+)\s*=\s*Variable\(\s*(\"[^\"]*\")\s*,\s*([^\s,)]+)\s*(?:,\s*([^\s,)]+)\s*)?\)\s*$", head, flags=re.M)
+        arrays = re.findall(r"^(\w+)\s*=\s*\[\s*(.*?)\]", head, flags=re.S | re.M)
+        masses = re.search(r"DK3P_DI\.particle_masses\s*=\s*\((.*?)\)", head)
         declared = {}
         for k, v in _positions(text, r"^(\w+)\s*=\s").items():
             declared.setdefault(k, v)
+    arrays = [(n, body) for n, body in arrays if n not in ("line_factor_list", "spin_factor_list", "amplitudes_list")]
+    res = [(n, q, v) for n, q, v, _e in variables]
+    pars = variables
     # a resonance variable is "name_M"/"name_W" with the quoted name equal to the symbol; parameters have free quoted names
     res_syms = {r[0] for r in res if r[1].strip('"') == r[0] and r[0][-2:] in ("_M", "_W")}
-    out["event"] = (ev.group(1), re.findall(r"(\S+) \((\d)\)", ev.group(2))) if ev else None
+    out["event"] = (ev.group(1), re.findall(r"(\S+)\s*\((\d)\)", ev.group(2))) if ev else None
     out["constants"] = sorted((n, _num(v)) for n, v in consts)
     out["resonances"] = sorted((n, q, _num(v)) for n, q, v in res if n in res_syms)
     plist = []
     for n, q, v, e in pars:
-        if n in res_syms and lang == "py":
+        if n in res_syms:
             continue
         plist.append((n, q.strip('"'), _num(v), _num(e) if e else None))
     out["parameters"] = plist
@@ -84,7 +85,7 @@ def read_output(text, lang):
         offset = bpos
         code = read_amplitude_code(body, lang)
         if lang == "cpp":
-            am = re.search(r'new Amplitude\{\s*"([^"]+)",\s*mkvar\("([^"]+)", (\w+), ([^,]+), ([^)]+)\),\s*mkvar\("([^"]+)", (\w+), ([^,]+), ([^)]+)\),.*?(\d+)\}\);', body, re.S)
+            am = re.search(r'new\s+Amplitude\s*\{\s*"([^"]+)"\s*,\s*mkvar\(\s*"([^"]+)"\s*,\s*(\w+)\s*,\s*([^,\s]+)\s*,\s*([^)\s]+)\s*\)\s*,\s*mkvar\(\s*"([^"]+)"\s*,\s*(\w+)\s*,\s*([^,\s]+)\s*,\s*([^)\s]+)\s*\)\s*,.*?(\d+)\s*\}\s*\)\s*;', body, re.S)
             if am:
                 name, rn, rfix, rv, re_, inn, ifix, iv, ie, n = am.groups()
                 fixed = rfix == "true"
@@ -93,7 +94,7 @@ def read_output(text, lang):
                              "count": int(n), **{k: v for k, v in code.items() if k != "n"}})
             ls_iter = re.finditer(r"new Lineshapes::(\w+)\((.*?)\)(?=,\n|\n)", body, re.S)
         else:
-            am = re.search(r'Amplitude\(\s*"([^"]+)",\s*Variable\("([^"]+)", ([^,)]+)(?:,([^,]+), 0\., 1000\.)?\),\s*Variable\("([^"]+)", ([^,)]+)(?:,([^,]+), 0\., 1000\.)?\),.*?(\d+)\)\)', body, re.S)
+            am = re.search(r'Amplitude\(\s*"([^"]+)"\s*,\s*Variable\(\s*"([^"]+)"\s*,\s*([^,)\s]+)\s*(?:,\s*([^,\s]+)\s*,\s*0\.\s*,\s*1000\.\s*)?\)\s*,\s*Variable\(\s*"([^"]+)"\s*,\s*([^,)\s]+)\s*(?:,\s*([^,\s]+)\s*,\s*0\.\s*,\s*1000\.\s*)?\)\s*,.*?(\d+)\s*\)\s*\)', body, re.S)
             if am:
                 name, rn, rv, re_, inn, iv, ie, n = am.groups()
                 fixed = re_ is None
